@@ -20,6 +20,7 @@ From I18n Require Import Lib.Outcome Model.IntExpr Model.PluralForms Model.Tags 
 From I18n Require Import Lib.Outcome Model.IntExpr Model.PluralForms
   Model.FmtPerlBrace Model.FmtPython Model.FmtPyBrace Model.FmtInstances Spec.CPyPercent Spec.CPyFormat Generated.Ucd.
 From I18n Require Import Model.Terminal.
+From I18n Require Model.Check.
 Extraction Language OCaml.
 Extraction "model.ml"
   IntExpr.parse_string IntExpr.pyeval IntExpr.codomain IntExpr.period
@@ -50,4 +51,5 @@ Extraction "model.ml"
   FmtInstances.fmtpy_parse_gen CPyPercent.cpy_events CPyPercent.cpy_syntax_error CPyPercent.plain_percents CPyPercent.cpy_format
   Terminal.strip_delay
   FmtInstances.pybrace_parse_gen FmtInstances.pybrace_domain_gen CPyFormat.cpy_markup CPyFormat.cpy_format Ucd.re_d_value
+  Check.check_top_ascii Check.subchecks_of
   .
